@@ -1369,9 +1369,22 @@ int32_t jls_core_repair_fsr(struct jls_core_s * self, uint16_t signal_id) {
 
     // update level 0 (data)
     jls_core_fsr_sample_buffer_alloc(signal_info->track_fsr);
+    int64_t sample_id_expect = 0;
+    bool sample_id_expect_valid = false;
     while (offset) {
         if (jls_raw_chunk_seek(self->raw, offset) || jls_core_rd_chunk(self)) {
             break;
+        }
+        if (self->buf->length >= sizeof(struct jls_payload_header_s)) {
+            struct jls_payload_header_s * dh = (struct jls_payload_header_s *) self->buf->start;
+            if (sample_id_expect_valid && (dh->timestamp != sample_id_expect)) {
+                // blocks were omitted here and their summaries were never written: the level-1 index
+                // cannot describe what follows, so the signal ends at the last contiguous block
+                JLS_LOGW("repair_fsr signal_id %d: data not contiguous at %" PRIi64 ", truncating", (int) signal_id, sample_id_expect);
+                break;
+            }
+            sample_id_expect = dh->timestamp + dh->entry_count;
+            sample_id_expect_valid = true;
         }
         if (self->buf->length > (sizeof(struct jls_payload_header_s)
                 + (((size_t) signal_def_samples_per_data(signal_info)) * jls_datatype_parse_size(signal_info->signal_def.data_type)) / 8)) {
